@@ -5,7 +5,7 @@ import gen
 
 METRICS = ['r2', 'rmsle', 'rmspe', 'rpd', 'smape']
 MCOQ = {'r2': 'MR2', 'rmsle': 'MRmsle', 'rmspe': 'MRmspe', 'rpd': 'MRpd', 'smape': 'MSmape'}
-BOGUS = (999999, 999999)
+BOGUS = (2047, 2047)     # a key the model never holds; small, because nat literals are unary in the case files
 
 
 def chunks(rng, items, lo=2, hi=8):
